@@ -110,6 +110,25 @@ TrTrial == /\ IsEvent("Trial")
                            /\ Ev.ck2 = "" /\ Ev.agree = 1
                            /\ Ev.dig = durable[Newest(Ev.x)].dig     \* latest completely persisted state
            /\ UNCHANGED <<durable, closeDig, img, slen, pos, origDig>>
+
+\* Pages written out of order: bytes [x,y) of the image are zeros or garbage, everything from
+\* y on is intact. States complete below x are undamaged (all they reference lies below
+\* them); a state whose record lies at or above y may or may not reference the damaged
+\* region, so the result may be any of those whose content is shown to be intact by its
+\* digest, but never something older than the newest undamaged state below x.
+TrHole == /\ IsEvent("Hole")
+          /\ Ev.x < Ev.y /\ Ev.y <= img.size
+          /\ Ev.check \in {"ok", "error"}
+          /\ IF CleanAt(Ev.eff, Ev.marker)
+             THEN TRUE
+             ELSE /\ Ev.open = "refused"
+                  /\ LET After == { i \in 1..img.n : durable[i].off >= Ev.y } IN
+                     \/ /\ Valid(Ev.x) = {} /\ Ev.repair = "novalid"
+                     \/ /\ Ev.repair = "ok" /\ Ev.reopen = "ok" /\ Ev.ck2 = "" /\ Ev.agree = 1
+                        /\ \E i \in Valid(Ev.x) \cup After :
+                              /\ Ev.dig = durable[i].dig
+                              /\ \A j \in Valid(Ev.x) : j <= i
+          /\ UNCHANGED <<durable, closeDig, img, slen, pos, origDig>>
 \* there is no action for "Died" (the child running open/check/repair crashed): rejected
 
 ----------------------------------------------------------------------------
@@ -135,7 +154,7 @@ TrLiveDump == /\ IsEvent("LiveDump") /\ Ev.res = "ok" /\ Ev.same = 1
               /\ UNCHANGED <<durable, closeDig, img, slen, pos, origDig>>
 
 TraceNext == \/ TrReset \/ TrTableRT \/ TrDupLoad \/ TrLiveDump \/ TrCreated \/ TrNoop \/ TrPersist \/ TrImage \/ TrClose \/ TrReopen
-             \/ TrAsofAt \/ TrAsofStep \/ TrAsofFuture \/ TrTrial \/ TrOriginal \/ TrSame
+             \/ TrAsofAt \/ TrAsofStep \/ TrAsofFuture \/ TrTrial \/ TrHole \/ TrOriginal \/ TrSame
 TraceSpec == TraceInit /\ [][TraceNext]_tvars
 HW == HWMark(l)
 =============================================================================
